@@ -37,6 +37,34 @@ CHECKS = {
              "derived sums are only compared at exact (power-of-two) price units; inputs are affine images of integer lattices.",
         technique=TECH + "every transition of closed / depth-bounded state graphs replayed against exact rational expectations with spec-supplied condition numbers",
         ref="6 (C03)"),
+    "C04": dict(
+        text="For each of the 22 kinds and periods 1..3 (1..4 thorough) TLC explores every reachable state of the implementation-shaped model -- every "
+             "ring content, cursor and counter position, including states tainted by NaN/+-inf/f64::MAX and a 10^6 spike, and states after earlier resets -- "
+             "and from EVERY such state explores reset() followed by four continuations of n+2 fresh values; the transcribed field-by-field reset is checked to "
+             "refine the fresh reference for all continuations; every transition is replayed: the real instance after reset() is compared step by step with a "
+             "newly constructed real instance (1e-12 relative) and with the exact value, and period/multiplier/Display are compared before and after; plus "
+             "seeded deep histories of thousands of operations with non-finite values and repeated resets.",
+        note="Indistinguishability is observed through next() outputs, period(), multiplier() and Display; continuations are n+2 long, from four fixed patterns "
+             "plus whatever the deep scripted histories contain.",
+        technique=TECH + "reset explored from every reachable model state; real reset instance compared with a fresh real instance and with the exact expectation",
+        ref="6 (C04)"),
+    "C05": dict(
+        text="TLC enumerates, per kind, every interleaving (no state merging, depth-bounded) of operations on an original, a clone taken at any point, an unrelated "
+             "instance with another period and a late fresh instance, and a clone taken at EVERY reachable state of the closed model followed by interleaved "
+             "continuations; the behaviours are executed on 16 real threads and any two real instances with the same configuration and literal history must "
+             "return bit-identical outputs -- within a behaviour, across behaviours and across threads -- and equal the specification's value.",
+        note="Thread schedules are observed, not controlled; instances are never shared between threads (the API needs &mut self).",
+        technique=TECH + "all interleavings of short multi-instance op sequences replayed on 16 threads with a cross-behaviour determinism map keyed by configuration and history",
+        ref="6 (C05)"),
+    "C06": dict(
+        text="From EVERY reachable state of the closed model of each of the 22 kinds (fresh, warming up, full, wrapped, just reset; periods 1..3, 1..4 thorough) "
+             "TLC explores serialize + deserialize (once or twice in a row) followed by continuations fed to the original and all copies; the real crate is "
+             "round-tripped through bincode at exactly those points: copies must agree within 1e-12 relative on every continuation step, keep "
+             "Display/period/multiplier, stay under the size bound and equal the exact value; plus seeded long histories with random checkpoints after which all "
+             "copies run for hundreds of steps.",
+        note="bincode 1.3 is the format exercised; DataItem round trips are part of C16's check.",
+        technique=TECH + "checkpoint/restore explored from every reachable model state; original and restored real instances compared on every continuation step",
+        ref="6 (C06)"),
 }
 
 NOT_APPLICABLE = {
